@@ -3484,7 +3484,7 @@ def stateresolutionv2__ResolveStateConflictsV2 : List String := [
   "fullConflictedSet := append(conflicted, r.calculateAuthDifference()...)",
   "visited := make(map[string]struct{}, len(conflicted)+len(authEvents))",
   "var fullControlSet func(event PDU) []PDU",
-  "fullControlSet = func(event PDU) []PDU { events := []PDU{event} for _, authEventID := range event.AuthEventIDs() { if _, ok := visited[authEventID]; ok { continue } if event, ok := r.conflictedEventMap[authEventID]; ok { events = append(events, fullControlSet(event)...) } visited[authEventID] = struct{}{} } return events }",
+  "fullControlSet = func(event PDU) []PDU { events := []PDU{event} for _, authEventID := range event.AuthEventIDs() { if _, ok := visited[authEventID]; ok { continue } visited[authEventID] = struct{}{} if event, ok := r.conflictedEventMap[authEventID]; ok { events = append(events, fullControlSet(event)...) } } return events }",
   "conflictedPulledIn := make(map[string]struct{}, len(conflicted)+len(authEvents))",
   "for _, p := range fullConflictedSet {",
   "if _, unconflicted := isUnconflicted[p.EventID()]; unconflicted {",
@@ -3573,7 +3573,7 @@ def stateresolutionv2__ResolveStateConflictsV2New : List String := [
   "fullConflictedSet := append(conflicted, r.calculateAuthDifferenceNew(stateResAlgo, newPDUSet(conflicted), stateSets)...)",
   "visited := make(map[string]struct{}, len(conflicted)+len(authEvents))",
   "var fullControlSet func(event PDU) []PDU",
-  "fullControlSet = func(event PDU) []PDU { events := []PDU{event} for _, authEventID := range event.AuthEventIDs() { if _, ok := visited[authEventID]; ok { continue } if event, ok := r.conflictedEventMap[authEventID]; ok { events = append(events, fullControlSet(event)...) } visited[authEventID] = struct{}{} } return events }",
+  "fullControlSet = func(event PDU) []PDU { events := []PDU{event} for _, authEventID := range event.AuthEventIDs() { if _, ok := visited[authEventID]; ok { continue } visited[authEventID] = struct{}{} if event, ok := r.conflictedEventMap[authEventID]; ok { events = append(events, fullControlSet(event)...) } } return events }",
   "conflictedPulledIn := make(map[string]struct{}, len(conflicted)+len(authEvents))",
   "for _, p := range fullConflictedSet {",
   "if unconflictedSet.Contains(p) {",
@@ -3972,8 +3972,9 @@ def stateresolutionv2_stateResolverV2_calculateFullAuthChainAndConflictedSubgrap
 def stateresolutionv2_stateResolverV2_createPowerLevelMainline : List String := [
   "func func() []PDU",
   "var mainline []PDU",
+  "visiting := make(map[string]struct{})",
   "var iter func(event PDU)",
-  "iter = func(event PDU) { mainline = append(mainline, nil) copy(mainline[1:], mainline) mainline[0] = event for _, authEventID := range event.AuthEventIDs() { if authEvent, ok := r.authEventMap[authEventID]; ok { if authEvent.Type() == spec.MRoomPowerLevels && authEvent.StateKeyEquals(\"\") { iter(authEvent) } } } }",
+  "iter = func(event PDU) { mainline = append(mainline, nil) copy(mainline[1:], mainline) mainline[0] = event for _, authEventID := range event.AuthEventIDs() { if authEvent, ok := r.authEventMap[authEventID]; ok { if authEvent.Type() == spec.MRoomPowerLevels && authEvent.StateKeyEquals(\"\") { if _, cyclic := visiting[authEventID]; cyclic { continue } visiting[authEventID] = struct{}{} iter(authEvent) delete(visiting, authEventID) } } } }",
   "if r.resolvedPowerLevels != nil {",
   "iter(r.resolvedPowerLevels)",
   "}",
@@ -3983,8 +3984,9 @@ def stateresolutionv2_stateResolverV2_createPowerLevelMainline : List String := 
 def stateresolutionv2_stateResolverV2_getFirstPowerLevelMainlineEvent : List String := [
   "func func(event PDU) (mainlineEvent PDU, mainlinePosition int, steps int)",
   "isInMainline := func(searchEvent PDU) (int, bool) { pos, ok := r.powerLevelMainlinePos[searchEvent.EventID()] return pos, ok }",
+  "visiting := make(map[string]struct{})",
   "var iter func(event PDU)",
-  "iter = func(event PDU) { for _, authEventID := range event.AuthEventIDs() { authEvent, ok := r.authEventMap[authEventID] if !ok { continue } if authEvent.Type() != spec.MRoomPowerLevels || !authEvent.StateKeyEquals(\"\") { continue } if pos, isIn := isInMainline(authEvent); isIn { mainlineEvent = authEvent mainlinePosition = pos r.powerLevelMainlinePos[mainlineEvent.EventID()] = mainlinePosition return } steps++ iter(authEvent) } }",
+  "iter = func(event PDU) { for _, authEventID := range event.AuthEventIDs() { authEvent, ok := r.authEventMap[authEventID] if !ok { continue } if authEvent.Type() != spec.MRoomPowerLevels || !authEvent.StateKeyEquals(\"\") { continue } if pos, isIn := isInMainline(authEvent); isIn { mainlineEvent = authEvent mainlinePosition = pos r.powerLevelMainlinePos[mainlineEvent.EventID()] = mainlinePosition return } if _, cyclic := visiting[authEventID]; cyclic { continue } steps++ visiting[authEventID] = struct{}{} iter(authEvent) delete(visiting, authEventID) } }",
   "iter(event)",
   "return"
 ]
